@@ -54,14 +54,14 @@ func (k *K) recvRule(id string, app appDesc) {
 	pkt, data := P(2), P(3)
 	away := FieldT(data, "AwayFromOrigin").String()
 	dID, dAmt, dClass := FieldT(data, "Id").String(), FieldT(data, "Amount").String(), FieldT(data, "Class")
-	tc := tokenCalls(fi, app)
-	var muts []*ssa.Call
+	tc := k.tokenCallsDeep(fi, app)
+	var muts []DeepCall
 	for name, cs := range tc {
 		if tokenMutators[name] {
 			muts = append(muts, cs...)
 		}
 	}
-	sort.Slice(muts, func(i, j int) bool { return muts[i].Pos() < muts[j].Pos() })
+	sort.Slice(muts, func(i, j int) bool { return muts[i].Call.Pos() < muts[j].Call.Pos() })
 	if len(muts) < 3 {
 		k.r.Violate(id+".recv/"+app.name+".ops", "MUST-PASS", fn, k.w.Pos(fi.Fn.Pos()), fmt.Sprintf("only %d token mutations found in OnRecvPacket", len(muts)))
 		return
@@ -83,18 +83,18 @@ func (k *K) recvRule(id string, app appDesc) {
 	for _, m := range muts {
 		okV, okD := false, false
 		for _, c := range vb {
-			if fi.ErrNilDominates(c, m.Block()) && fi.T.Of(CallRecv(&c.Call)).String() == data.String() {
+			if k.dcHasAtom(fi, m, atomEQ(fi.ErrTermOfCall(c), "nil")) && fi.T.Of(CallRecv(&c.Call)).String() == data.String() {
 				okV = true
 			}
 		}
 		for _, c := range dec {
-			if fi.ErrNilDominates(c, m.Block()) {
+			if k.dcHasAtom(fi, m, atomEQ(fi.ErrTermOfCall(c), "nil")) {
 				okD = true
 			}
 		}
-		name := m.Call.Method.Name()
-		k.r.Check(okV, id+".recv/"+app.name+".validate."+name, "GUARD-DOM", fn, fi.InstrPos(m), name+" dominated by data.ValidateBasic() == nil", name+" can run before/without data.ValidateBasic() succeeding")
-		k.r.Check(okD, id+".recv/"+app.name+".receiver."+name, "GUARD-DOM", fn, fi.InstrPos(m), name+" dominated by a successfully decoded data.Receiver", name+" can run before the receiver address has been decoded successfully: a packet with an undecodable receiver would be answered with an error acknowledgement after token state was already changed")
+		name := m.Call.Common().Method.Name()
+		k.r.Check(okV, id+".recv/"+app.name+".validate."+name, "GUARD-DOM", fn, k.dcPos(fi, m), name+" dominated by data.ValidateBasic() == nil", name+" can run before/without data.ValidateBasic() succeeding")
+		k.r.Check(okD, id+".recv/"+app.name+".receiver."+name, "GUARD-DOM", fn, k.dcPos(fi, m), name+" dominated by a successfully decoded data.Receiver", name+" can run before the receiver address has been decoded successfully: a packet with an undecodable receiver would be answered with an error acknowledgement after token state was already changed")
 	}
 	// expected classes
 	newPath := k.w.TermOfCall(k.w.Method(app.keeperPkg, "Keeper", "getAwayNewClassPath"), P(0), FieldT(pkt, "SourceChain"), FieldT(pkt, "DestinationChain"), dClass)
@@ -103,11 +103,10 @@ func (k *K) recvRule(id string, app appDesc) {
 	voucherBack := k.parseIBCClass(app, backPath)
 	isMod := func(s string) bool { return strings.Contains(s, "GetModuleAddress") }
 	for _, m := range muts {
-		name := m.Call.Method.Name()
-		a := termsOf(fi, m.Call.Args)
-		site := fi.InstrPos(m)
-		b := m.Block()
-		inAway, inBack := fi.HasAtom(b, away), fi.HasAtom(b, "!"+away)
+		name := m.Call.Common().Method.Name()
+		a := m.Args()
+		site := k.dcPos(fi, m)
+		inAway, inBack := k.dcHasAtom(fi, m, away), k.dcHasAtom(fi, m, "!"+away)
 		n := len(a)
 		switch name {
 		case "IssueDenom":
@@ -130,7 +129,7 @@ func (k *K) recvRule(id string, app appDesc) {
 				k.r.Check(okCommon && a[1] == voucherAway, id+".table/"+app.name+".recv.handover", "BIND", fn, site, "freshly minted voucher handed from the module account to the decoded receiver", "hand-over arguments are ("+clip(strings.Join(a[1:], ", "))+")")
 			case inBack:
 				k.r.Check(okCommon && a[1] == voucherBack, id+".table/"+app.name+".recv.unlock", "BIND", fn, site, "escrow release of (class parsed back from data.Class, data.Id) from the module account to the decoded receiver", "escrow release arguments are ("+clip(strings.Join(a[1:], ", "))+"); expected class "+clip(voucherBack)+", id "+dID+", module account -> "+recvT)
-				prefixOK := fi.HasFact(b, func(f Fact) bool {
+				prefixOK := k.dcHas(fi, m, func(f Fact) bool {
 					return f.Op == "true" && f.L.Op == "call" && f.L.Name == "strings.HasPrefix" && f.L.Args[0].String() == dClass.String()
 				})
 				k.r.Check(prefixOK, id+".table/"+app.name+".recv.unlock.prefix", "GUARD-DOM", fn, site, "escrow release only for a class carrying the voucher path prefix", "escrow release is not guarded by the class-path prefix check on data.Class")
@@ -142,17 +141,17 @@ func (k *K) recvRule(id string, app appDesc) {
 		}
 	}
 	// every success path hands the asset to the receiver
-	var hand []*ssa.Call
+	var hand []ssa.Instruction
 	for _, c := range tc["TransferOwner"] {
-		a := termsOf(fi, c.Call.Args)
+		a := c.Args()
 		if a[len(a)-1] == recvT {
-			hand = append(hand, c)
+			hand = append(hand, c.Outer)
 		}
 	}
 	for _, st := range returnSites(fi, "") {
 		path := fi.PathAvoiding(st.Instr, func(x ssa.Instruction) bool {
 			for _, c := range hand {
-				if ssa.Instruction(c) == x {
+				if c == x {
 					return true
 				}
 			}
@@ -185,22 +184,22 @@ func (k *K) refundRule(id string, app appDesc) {
 			}
 		}
 	}
-	tc := tokenCalls(fi, app)
+	tc := k.tokenCallsDeep(fi, app)
 	isMod := func(s string) bool { return strings.Contains(s, "GetModuleAddress") }
-	nUnlock, nMint, nHand := 0, 0, 0
+	nUnlock, nMint, nHand, nShared := 0, 0, 0, 0
+	var mintSites, creditSites []ssa.Instruction
 	for name, cs := range tc {
 		if !tokenMutators[name] {
 			continue
 		}
 		for _, m := range cs {
-			a := termsOf(fi, m.Call.Args)
+			a := m.Args()
 			n := len(a)
-			site := fi.InstrPos(m)
-			b := m.Block()
-			inAway, inBack := fi.HasAtom(b, away), fi.HasAtom(b, "!"+away)
+			site := k.dcPos(fi, m)
+			inAway, inBack := k.dcHasAtom(fi, m, away), k.dcHasAtom(fi, m, "!"+away)
 			okD := false
 			for _, c := range dec {
-				if fi.ErrNilDominates(c, b) {
+				if k.dcHasAtom(fi, m, atomEQ(fi.ErrTermOfCall(c), "nil")) {
 					okD = true
 				}
 			}
@@ -212,12 +211,13 @@ func (k *K) refundRule(id string, app appDesc) {
 					okArgs = okArgs && a[3] == dAmt
 				}
 				k.r.Check(okArgs, id+".refund.bind/"+app.name+".credit", "BIND", fn, site, "refund credits decode(data.Sender) with (class of data.Class, data.Id"+map[bool]string{true: ", data.Amount", false: ""}[app.hasAmount]+") from the module account", "refund transfer arguments are ("+clip(strings.Join(a[1:], ", "))+"); expected class "+clip(voucher)+", id "+dID+", module account -> "+senderT)
+				creditSites = append(creditSites, m.Outer)
 				if inAway {
 					nUnlock++
 				} else if inBack {
 					nHand++
 				} else {
-					k.r.Violate(id+".refund.mirror/"+app.name+".transfer.branch", "GUARD-DOM", fn, site, "refund transfer is guarded neither by data.AwayFromOrigin nor by its negation: the refund direction is not chosen by the flag the sender wrote into the packet")
+					nShared++ // one transfer shared by both directions (re-mint first when the asset was burned)
 				}
 			case "MintNFT", "MintMT":
 				okArgs := a[1] == voucher && a[2] == dID && isMod(a[n-1])
@@ -227,13 +227,34 @@ func (k *K) refundRule(id string, app appDesc) {
 				k.r.Check(okArgs, id+".refund.bind/"+app.name+".remint", "BIND", fn, site, "re-mint of (class of data.Class, data.Id) to the module account", "re-mint arguments are ("+clip(strings.Join(a[1:], ", "))+")")
 				k.r.Check(inBack && !inAway, id+".refund.mirror/"+app.name+".remint.branch", "GUARD-DOM", fn, site, "re-mint happens exactly under !data.AwayFromOrigin (undoes the burn)", "re-mint on refund is not guarded by data.AwayFromOrigin == false: a refund of a locked (not burned) asset would create new units while the locked ones stay in escrow")
 				nMint++
+				mintSites = append(mintSites, m.Outer)
 			default:
 				k.r.Violate(id+".refund.mirror/"+app.name+".unexpected."+name, "WHO-MAY-CALL", fn, site, "unexpected token mutation "+name+" in refund")
 			}
 		}
 	}
-	k.r.Check(nUnlock == 1 && nMint == 1 && nHand == 1, id+".refund.mirror/"+app.name+".table", "SIBLING", fn, k.w.Pos(fi.Fn.Pos()),
-		"refund(away)=unlock, refund(!away)=re-mint+hand over", fmt.Sprintf("refund branch table has %d unlocks under away, %d re-mints and %d hand-overs under !away; expected 1/1/1", nUnlock, nMint, nHand))
+	// branch table: refund(away) = unlock, refund(!away) = re-mint + hand over. Either two
+	// branch-local transfers or one transfer shared by both directions.
+	tableOK := nMint == 1 && ((nUnlock == 1 && nHand == 1 && nShared == 0) || (nShared == 1 && nUnlock == 0 && nHand == 0))
+	k.r.Check(tableOK, id+".refund.mirror/"+app.name+".table", "SIBLING", fn, k.w.Pos(fi.Fn.Pos()),
+		"refund(away)=unlock, refund(!away)=re-mint+hand over", fmt.Sprintf("refund branch table has %d unlocks under away, %d re-mints, %d hand-overs under !away and %d direction-independent transfers; expected 1/1/1/0 or 0/1/0/1", nUnlock, nMint, nHand, nShared))
+	// every success path credits the sender; when the asset was burned (!away) it passes the re-mint first
+	for _, st := range returnSites(fi, "") {
+		in := func(set []ssa.Instruction) func(ssa.Instruction) bool {
+			return func(x ssa.Instruction) bool {
+				for _, s := range set {
+					if s == x {
+						return true
+					}
+				}
+				return false
+			}
+		}
+		p1 := fi.PathAvoiding(st.Instr, in(creditSites))
+		k.r.Check(p1 == nil && len(creditSites) > 0, id+".refund.mirror/"+app.name+".credits."+st.What, "MUST-PASS", fn, fi.InstrPos(st.Instr), "every successful refund credits the sender", "refund can succeed without transferring the asset back to the sender: "+fi.DescribePath(p1))
+		p2 := fi.PathAvoidingX(st.Instr, in(mintSites), func(f Fact) bool { return f.Atom == away })
+		k.r.Check(p2 == nil, id+".refund.mirror/"+app.name+".remint."+st.What, "MUST-PASS", fn, fi.InstrPos(st.Instr), "a refund of a burned asset (!AwayFromOrigin) passes the re-mint", "a refund with AwayFromOrigin=false can succeed without re-minting the burned asset: "+fi.DescribePath(p2))
+	}
 
 	// only for error acknowledgements
 	if fk := k.method(app.keeperPkg, "Keeper", "OnAcknowledgementPacket"); fk != nil {
@@ -318,7 +339,7 @@ func (k *K) whoMayMutate(id string, app appDesc) {
 			continue
 		}
 		n++
-		k.r.Check(allowedHolders[fn.Name()] && fn.Parent() == nil, id+".owner/"+app.name+"."+fn.Name(), "WHO-MAY-CALL", funcName(fn), k.w.Pos(fn.Pos()), "token mutations live in a sanctioned keeper function", "token-module mutations in "+funcName(fn)+", which is not one of the sanctioned functions (send, receive callback, refund)")
+		_ = allowedHolders // the holder may be a helper of the sanctioned functions: what matters is from where it can be reached
 		// roots
 		seen := map[*ssa.Function]bool{fn: true}
 		stack := []*ssa.Function{fn}
@@ -416,13 +437,24 @@ func (k *K) namespaceRule(id string, app appDesc) {
 		ct := "strings.Contains(" + sp.class.String() + `,const("/"))`
 		// a fail-only branch guarded by both predicates on the raw class parameter
 		rejected := false
-		for _, f := range fi.facts {
-			if f.Op != "true" || (f.L.String() != hp && f.L.String() != ct) {
-				continue
-			}
-			blk := f.If.Block().Succs[f.Succ]
-			if fi.HasAtom(blk, hp) && fi.HasAtom(blk, ct) && failsOnly(fi, blk) {
-				rejected = true
+		// in the send function itself or in a helper it calls on the class parameter
+		for _, sc := range k.scopes(fi, 2) {
+			for _, f := range sc.Fi.facts {
+				if f.Op != "true" || (f.L.String() != hp && f.L.String() != ct) {
+					continue
+				}
+				blk := f.If.Block().Succs[f.Succ]
+				if sc.Fi.HasAtom(blk, hp) && sc.Fi.HasAtom(blk, ct) && failsOnly(sc.Fi, blk) {
+					// a failing helper must fail the send: its error is checked by the caller
+					if sc.Outer == nil {
+						rejected = true
+					} else if oc, ok := sc.Outer.(*ssa.Call); ok {
+						u := fi.errUse(oc)
+						if !u.Dropped && !u.Unchecked && u.SwallowedAt == nil {
+							rejected = true
+						}
+					}
+				}
 			}
 		}
 		// and it happens before the direction decision on every path that does not go through ClassPathFromHash
@@ -629,7 +661,14 @@ func ruleC06(w *World, r *Report) {
 				}
 			}
 		}
-		r.Check(same, "C06.nft-mt/"+h.name, "SIBLING", funcName(fa)+" vs "+funcName(fb), w.Pos(fa.Pos()), "identical up to the prefix constant", "the NFT and MT versions of "+h.name+" differ:"+diff)
+		// A textual/structural difference between the two copies is not by itself a
+		// violation (one copy may have been refactored): it is reported for the reader,
+		// the per-application rules above decide.
+		if same {
+			r.OK("C06.nft-mt/"+h.name, "SIBLING", funcName(fa)+" vs "+funcName(fb), w.Pos(fa.Pos()), "identical up to the prefix constant")
+		} else {
+			r.Info("C06.nft-mt/"+h.name, "SIBLING", funcName(fa)+" vs "+funcName(fb), w.Pos(fa.Pos()), "the NFT and MT versions of "+h.name+" are structured differently:"+clip(diff))
+		}
 	}
 	// sender-side direction test and receiver-side path extension use the same path predicate
 	for _, app := range apps {
@@ -639,14 +678,65 @@ func ruleC06(w *World, r *Report) {
 				return nil
 			}
 			set := map[string]bool{}
+			// the class parameter: $1 in determineAwayFromOrigin(class, dest), $3 in getAwayNewClassPath(src, dest, class)
+			classParam := "$1"
+			if name == "getAwayNewClassPath" {
+				classParam = "$3"
+			}
+			var collect func(fi *FnInfo, cp string, depth int)
+			collect = func(fi *FnInfo, cp string, depth int) {
+				for _, f := range fi.facts {
+					if f.Op != "true" && f.Op != "false" {
+						continue
+					}
+					t := f.L
+					s := t.String()
+					if (strings.HasPrefix(s, "strings.HasPrefix(") || strings.HasPrefix(s, "strings.Contains(")) && len(t.Args) == 2 && t.Args[0].String() == cp {
+						set[strings.Replace(s, cp, "CLASS", 1)] = true
+						continue
+					}
+					// a boolean helper on the class ("isVoucherClassPath(class)"): use its own predicates
+					if t.Op == "call" && depth > 0 {
+						for _, b := range fi.Fn.Blocks {
+							for _, in := range b.Instrs {
+								c, ok := in.(*ssa.Call)
+								if !ok || c.Call.StaticCallee() == nil || c.Call.StaticCallee().Blocks == nil || fi.T.Of(c).String() != s {
+									continue
+								}
+								callee := c.Call.StaticCallee()
+								if callee.Pkg != fi.Fn.Pkg {
+									continue
+								}
+								for i, a := range c.Call.Args {
+									if fi.T.Of(a).String() == cp && i < len(callee.Params) {
+										collect(w.FI(callee), fmt.Sprintf("$%d", i), depth-1)
+									}
+								}
+							}
+						}
+					}
+				}
+			}
+			collect(w.FI(fn), classParam, 1)
+			// predicates returned (not branched on) by a boolean helper: "return a && b"
 			for _, f := range w.FI(fn).facts {
-				if f.Op == "true" || f.Op == "false" {
-					s := f.L.String()
-					if strings.HasPrefix(s, "strings.HasPrefix(") || strings.HasPrefix(s, "strings.Contains(") {
-						// normalise the class parameter position
-						s = strings.ReplaceAll(s, "$1", "CLASS")
-						s = strings.ReplaceAll(s, "$3", "CLASS")
-						set[s] = true
+				if (f.Op == "true" || f.Op == "false") && f.L.Op == "call" {
+					for _, b := range fn.Blocks {
+						for _, in := range b.Instrs {
+							c, ok := in.(*ssa.Call)
+							if !ok || c.Call.StaticCallee() == nil || c.Call.StaticCallee().Blocks == nil || c.Call.StaticCallee().Pkg != fn.Pkg || w.FI(fn).T.Of(c).String() != f.L.String() {
+								continue
+							}
+							hf := w.FI(c.Call.StaticCallee())
+							for _, rt := range hf.Returns() {
+								hf.T.Of(RetVal(rt.Instr, 0)).Walk(func(x *Term) {
+									xs := x.String()
+									if x.Op == "call" && (strings.HasPrefix(xs, "strings.HasPrefix($") || strings.HasPrefix(xs, "strings.Contains($")) && len(x.Args) == 2 {
+										set[strings.Replace(xs, x.Args[0].String(), "CLASS", 1)] = true
+									}
+								})
+							}
+						}
 					}
 				}
 			}
@@ -658,7 +748,7 @@ func ruleC06(w *World, r *Report) {
 			return out
 		}
 		a, b := preds("determineAwayFromOrigin"), preds("getAwayNewClassPath")
-		r.Check(len(a) == 2 && strings.Join(a, ";") == strings.Join(b, ";"), "C06.agree/"+app.name, "SIBLING", shortPath(app.keeperPkg), "-", "sender-side direction test and receiver-side path extension use the same 'is a voucher path' predicate: "+strings.Join(a, " && "), fmt.Sprintf("determineAwayFromOrigin tests %v but getAwayNewClassPath tests %v: a class that one side treats as native and the other as a path cannot be returned to its original class", a, b))
+		r.Check(len(a) >= 2 && strings.Join(a, ";") == strings.Join(b, ";"), "C06.agree/"+app.name, "SIBLING", shortPath(app.keeperPkg), "-", "sender-side direction test and receiver-side path extension use the same 'is a voucher path' predicate: "+strings.Join(a, " && "), fmt.Sprintf("determineAwayFromOrigin tests %v but getAwayNewClassPath tests %v: a class that one side treats as native and the other as a path cannot be returned to its original class", a, b))
 	}
 	r.MinInstances("C06.", 40)
 }
